@@ -39,9 +39,6 @@ Lemma skipn_all_len {B} (l : list B) n : length l = n -> skipn n l = [].
 Proof. intros <-. apply skipn_all. Qed.
 
 (* ---------- the invariant ---------- *)
-Definition supported (k : kind) (L : layout) : bool :=
-  negb (is_clipped (sk k) && match L with ColMajor => true | RowMajor => false end).
-
 Definition kind_ok (k : kind) (shp : list Z) (ndata : nat) : Prop :=
   (match sk k with
    | SFixedDim n => length shp = n
@@ -63,16 +60,15 @@ Variable dflt : A.
 Definition Inv (st : state A) : Prop :=
   prod (st_shape st) = Z.of_nat (length (st_data st))
   /\ st_strides st = compute_strides (st_shape st)
-  /\ st_off st = offset_of (sk (st_kind st)) (st_layout st) (st_shape st) (st_strides st)
+  /\ st_off st = offset_of (st_layout st) (st_shape st) (st_strides st)
   /\ kind_ok (st_kind st) (st_shape st) (length (st_data st)).
 
 (* the strides the offset functor addresses with are the layout's strides *)
-Lemma Inv_offset_strides st : Inv st -> supported (st_kind st) (st_layout st) = true ->
+Lemma Inv_offset_strides st : Inv st ->
   snd (st_off st) = layout_strides (st_layout st) (st_shape st).
 Proof.
-  intros (_ & Hs & Ho & _) Hsup. rewrite Ho, Hs. unfold offset_of, supported in *.
-  destruct (st_layout st); simpl; [reflexivity|].
-  destruct (is_clipped (sk (st_kind st))); [discriminate | reflexivity].
+  intros (_ & Hs & Ho & _). rewrite Ho, Hs. unfold offset_of.
+  destruct (st_layout st); reflexivity.
 Qed.
 
 (* ---------- resize ---------- *)
@@ -87,7 +83,7 @@ Lemma resize_accepted st sizes : nonneg sizes ->
   exists data1,
     resize dflt st sizes =
       (true, mkState (st_kind st) (st_layout st) sizes (compute_strides sizes)
-                     (offset_of (sk (st_kind st)) (st_layout st) sizes (compute_strides sizes)) data1)
+                     (offset_of (st_layout st) sizes (compute_strides sizes)) data1)
     /\ Z.of_nat (length data1) = prod sizes
     /\ (buffer_resizable (bk (st_kind st)) = false -> data1 = st_data st).
 Proof.
@@ -315,34 +311,34 @@ Proof.
 Qed.
 
 (* ---------- addressing: C01 applies to every state that satisfies the invariant ---------- *)
-Lemma st_offset_layout st i : Inv st -> supported (st_kind st) (st_layout st) = true ->
+Lemma st_offset_layout st i : Inv st ->
   st_offset st i = layout_offset (st_layout st) (st_shape st) i.
 Proof.
-  intros HI Hs. unfold st_offset. rewrite (Inv_offset_strides st HI Hs).
+  intros HI. unfold st_offset. rewrite (Inv_offset_strides st HI).
   destruct (st_layout st); reflexivity.
 Qed.
 
-Lemma get_is_ndarray_get st i : Inv st -> supported (st_kind st) (st_layout st) = true ->
+Lemma get_is_ndarray_get st i : Inv st ->
   get st i = ndarray_get (st_layout st) (st_shape st) (st_data st) i.
-Proof. intros HI Hs. unfold get, ndarray_get. now rewrite st_offset_layout. Qed.
+Proof. intros HI. unfold get, ndarray_get. now rewrite st_offset_layout. Qed.
 
-Lemma distinct_indices_distinct_cells st i j : Inv st -> supported (st_kind st) (st_layout st) = true ->
+Lemma distinct_indices_distinct_cells st i j : Inv st ->
   inb i (st_shape st) -> inb j (st_shape st) ->
   0 <= st_offset st i < Z.of_nat (length (st_data st))
   /\ (st_offset st i = st_offset st j -> i = j)
   /\ (exists v, get st i = Some v).
 Proof.
-  intros HI Hs Hi Hj. pose proof HI as (Hlen & _).
+  intros HI Hi Hj. pose proof HI as (Hlen & _).
   rewrite !st_offset_layout, get_is_ndarray_get by assumption. rewrite <- Hlen.
   split; [now apply layout_offset_bound|]. split; [now apply layout_offset_inj|].
   apply ndarray_get_defined; [now symmetry | assumption].
 Qed.
 
-Lemma get_write st i j x : Inv st -> supported (st_kind st) (st_layout st) = true ->
+Lemma get_write st i j x : Inv st ->
   inb i (st_shape st) -> inb j (st_shape st) ->
   get (write st i x) j = if list_eq_dec Z.eq_dec j i then Some x else get st j.
 Proof.
-  intros HI Hs Hi Hj. pose proof HI as (Hlen & _).
+  intros HI Hi Hj. pose proof HI as (Hlen & _).
   rewrite (get_is_ndarray_get (write st i x)) by (try apply write_preserves_Inv; assumption).
   rewrite (get_is_ndarray_get st) by assumption.
   unfold write. cbn [st_layout st_shape st_data]. rewrite st_offset_layout by assumption.
@@ -515,7 +511,7 @@ Lemma cast_preserves (st : state A) k' r : nonneg (st_shape st) ->
 Proof.
   intros Hn Hc. unfold cast in Hc.
   assert (Hget : forall shp strd, 
-     get (mkState k' RowMajor shp strd (offset_of (sk k') RowMajor (st_shape st) (compute_strides (st_shape st)))
+     get (mkState k' RowMajor shp strd (offset_of RowMajor (st_shape st) (compute_strides (st_shape st)))
                   (cast_data A B dfltB conv st)) =
      fun idx => nth_error (cast_data A B dfltB conv st)
                   (Z.to_nat (compute_offset idx (compute_strides (st_shape st))))) by reflexivity.
@@ -590,6 +586,6 @@ Qed.
 Lemma d_write_Inv st i x : d_Inv st -> d_Inv (d_write st i x).
 Proof. intros (H1 & H2 & H3). unfold d_Inv, d_write. cbn. now rewrite upd_length. Qed.
 
-Lemma d_init_not_Inv : ~ d_Inv (@d_init A).
-Proof. intros (H & _). simpl in H. discriminate. Qed.
+Lemma d_init_Inv : d_Inv (d_init dflt).
+Proof. unfold d_init. apply d_resize_Inv. constructor. Qed.
 End LegacyProofs.
